@@ -57,3 +57,23 @@ Theorem T_start_error_wins : forall c s, wf_cfg c = true -> current c = true -> 
   started s = true -> running s = false ->
   s_err s = c_hdr_err c /\ is_err (s_err s) = true /\ all_done s = true.
 Proof. intros c s Hwf Hcur H Hs Hr. parts c Hwf Hcur. exact (start_error_wins c Hn Hi Hre Hnx s H Hs Hr). Qed.
+
+Theorem T_recorded_error_sticky : forall c l s s' o, wf_cfg c = true -> current c = true -> reach c s ->
+  step c l s = Some (s', o) -> s_err s <> 0%Z -> s_err s' = s_err s.
+Proof. intros c l s s' o Hwf Hcur H Hs Hne. parts c Hwf Hcur. exact (recorded_error_sticky c Hn Hi Hre Hnx l s s' o H Hs Hne). Qed.
+
+(* nil Err = the objects of every block of the file were delivered, when no block/read of the file
+   reports io.EOF before the end of the list *)
+Theorem T_err_nil_every_block : forall c s, wf_cfg c = true -> current c = true -> reach c s ->
+  c_hdr_err c <> eEOF -> no_eof_item (c_inp c) = true -> err_value s = 0%Z ->
+  (s_err s = eEOF /\ delivered s = all_objs (c_inp c)) \/
+  (s_err s = 0%Z /\ closed s = false /\ pcancelled s = false).
+Proof.
+  intros c s Hwf Hcur H Hh Hne Hv.
+  destruct (T_err_nil_only_complete c s Hwf Hcur H Hh Hv) as [(A & B & C)|A]; [left|right; exact A].
+  split; [exact A|]. rewrite B. apply eof_means_all_blocks; assumption.
+Qed.
+
+Theorem T_false_scan_records : forall c l s s' o v, c_nextctx c = true -> step c l s = Some (s', o) -> In (OScan false v) o ->
+  closed s' = false -> pcancelled s' = false -> s_err s' <> 0%Z.
+Proof. intros c l s s' o v Hnx. exact (false_scan_records c Hnx l s s' o v). Qed.
